@@ -252,3 +252,122 @@ def c17(out):
     if nz < 10:
         out.inconclusive.append({"reason": "wipe monitor saw fewer than 10 blocks that were non-zero before cleanup (%d)" % nz})
     out.assumptions += ["block sizes taken from the matching allocation event; interior pointers (aligned contexts) are scanned over the whole underlying block"]
+
+
+# --------------------------------------------------------------------- C09
+@check("C09")
+def c09(out):
+    out.rule = ("case index mod 4 selects single-block functions (6, incl. every overlap offset -(B-1)..+(B-1)), key/tweak setting functions (8, every legal length), CTR objects (3 ciphers x back ends, "
+                "every length 0..2 batches+17 and a few of 3000..4000, arbitrary stream offset, in place 1/3) or parallel ECB (0..19 blocks and up to 220, in place 1/3, Mantis tweak array); every pointer argument is "
+                "placed exact-extent against a PROT_NONE page (back or front) or at misalignment 0..63 with canaries in the slack; result must equal the same call on aligned separate buffers, inputs unmodified, "
+                "canaries intact, no fault. prod build = hardware guard pages, asan build = byte-exact poisoning of the slack, thorough adds memcheck NOACCESS slack. distinct = distinct (function, length, placement) configurations.")
+    v = [("prod", n(out, 160000, 4000000)), ("asan", n(out, 40000, 600000))]
+    if out.tier == "thorough":
+        v += [("clang", 600000), ("prod+UNAL0", 300000), ("prod+W32", 300000), ("asan+UNAL0", 100000), ("prod+O0", 100000)]
+    for vname, cases in v:
+        exe = build_driver("drv_buf", ["drv_buf.c"] + HIST, vname)
+        run_sharded(out, exe, ["--prop", "C09", "--mode", "c09"], vname, cases)
+    if out.tier == "thorough":
+        exe = build_driver("drv_buf_vg", ["drv_buf.c"] + HIST, "prod", extra=["-DVH_VALGRIND"])
+        run_sharded(out, exe, ["--prop", "C09", "--mode", "c09", "--case-timeout", "600"], "prod", 40000, label="memcheck", timeout=3000,
+                    wrapper=["valgrind", "-q", "--error-exitcode=99", "--exit-on-first-error=yes", "--undef-value-errors=no"])
+        out.variants.append("prod under valgrind memcheck (NOACCESS slack)")
+    out.assumptions += ["on the prod build an overrun smaller than the alignment slack of a misaligned placement is seen only as a damaged canary (writes) - byte-exact read detection comes from the asan and memcheck variants",
+                        "partial overlap for bulk calls is not promised and not tested"]
+
+
+# --------------------------------------------------------------------- C12
+def _digest_compare(out, prop, base_label, what):
+    base = out.digests.get(base_label, {})
+    compared = 0
+    for label, dg in out.digests.items():
+        if label == base_label:
+            continue
+        common = set(dg) & set(base)
+        compared += len(common)
+        bad = {}
+        for k in sorted(common):
+            if dg[k] != base[k]:
+                bad.setdefault(k[0], []).append(k)
+        for sec, ks in bad.items():
+            out.violation("%s:%s:%s:%s" % (prop, label, sec, what),
+                          detail={"chunks_differing": len(ks), "first_chunk": {"section": ks[0][0], "first_case": ks[0][1], "cases": ks[0][2]},
+                                  "hash_here": dg[ks[0]], "hash_baseline": base[ks[0]], "baseline": base_label},
+                          replay={"driver": "drv_xcfg", "note": "re-run bin/check %s with VERIF_SEED=%d; chunk = 32 consecutive cases of this section in one shard" % (prop, out.seed)})
+            out.vkeys["%s:%s:%s:%s" % (prop, label, sec, what)] = len(ks)
+    out.observed["digest_chunks_compared_with_baseline"] = compared
+    out.observed["digest_chunks_in_baseline"] = len(base)
+    if compared == 0:
+        out.inconclusive.append({"reason": "no digest chunk could be compared with the baseline"})
+
+
+def _xcfg_variants(out):
+    if out.tier == "quick":
+        return ["prod", "prod+W32", "prod+UNAL0", "prod+NEUTRAL", "prod+W32+UNAL0", "prod+W32+NEUTRAL", "prod+NOSIMD", "prod+NOAVX2", "clang", "prod+O0", "clang+W32+UNAL0+NOSIMD", "clang+O1+NEUTRAL"]
+    vs = []
+    for cc in ("prod", "clang"):
+        for o in ("O0", "O1", "O2", "O3"):
+            for w in ("", "+W32"):
+                for u in ("", "+UNAL0"):
+                    for simd in ("", "+NOAVX2", "+NOSIMD", "+NEUTRAL"):
+                        vs.append(cc + "+" + o + w + u + simd)
+    return ["prod"] + vs
+
+
+@check("C12")
+def c12(out):
+    import concurrent.futures as cf
+    variants = _xcfg_variants(out)
+    out.rule = ("the working tree is built in %d configurations (word size x unaligned access x {SIMD all / no AVX2 / none / byte-order-neutral scalar} x gcc/clang x -O levels; quick = covering subset of 12) "
+                "and each build runs the same seeded workload: single-block SKINNY (all variants, in-between key sizes, both directions), MANTIS (rounds, modes, entry points incl. double swap), tweak histories, "
+                "CTR histories (carries, splits, mid-stream rekey, invalid calls) and parallel histories on every back end the build contains; inside each build results are compared with the reference models and across "
+                "back ends; per-chunk digests (32 cases) of all outputs and return values are compared with the shipped configuration. distinct = distinct workload cases by output digest (each executed in every build)." % len(variants))
+    cases = n(out, 4000, 6000)
+    with cf.ThreadPoolExecutor(max_workers=3) as ex:
+        exes = dict(zip(variants, ex.map(lambda v: build_driver("drv_xcfg", ["drv_xcfg.c"] + HIST, v), variants)))
+    for vname in variants:
+        run_sharded(out, exes[vname], ["--prop", "C12", "--mode", "digest"], vname, cases, shards=8, label=vname)
+    _digest_compare(out, "C12", "prod", "differs-from-shipped-build")
+    out.observed["configurations_built"] = len(variants)
+    out.exhaustive = False
+    out.assumptions += ["no real 32-bit or big-endian target exists in this sandbox: the alternative source paths are compiled for and run on the 64-bit little-endian host through the RWEATHER_SKINNY_C_VERIF switch hook",
+                        "SKINNY_LITTLE_ENDIAN=0 is only combined with SIMD off (as the property's quantifier says)"]
+
+
+# --------------------------------------------------------------------- C11
+VG = ["valgrind", "-q", "--error-exitcode=0"]
+
+
+@check("C11")
+def c11(out):
+    out.rule = ("(1) definedness at the API boundary: clang MemorySanitizer build (and the shipped build under valgrind memcheck): caller structs pre-marked undefined, every key-setting function at every legal length, then "
+                "return value, rounds, round keys [0..rounds), tweak / k0,k0',k1,tweak,rounds and every output byte are tested with __msan_test_shadow / VALGRIND_GET_VBITS; the CTR and parallel history interpreters assert "
+                "the same for every return value, output byte and handle field. (2) differential: the same seeded workload (drv_xcfg) run in separate processes that differ only in stack paint (0x00/0xFF/pattern), "
+                "MALLOC_PERTURB_, compiler and optimisation level must give bit-identical digests. distinct = distinct cases by content hash.")
+    # (1) definedness
+    exe = build_driver("drv_keys", ["drv_keys.c"] + HIST, "msan")
+    run_sharded(out, exe, ["--prop", "C11", "--mode", "c11"], "msan", n(out, 8000, 200000), label="msan-keys")
+    exe = build_driver("drv_ctr", ["drv_ctr.c"] + HIST, "msan")
+    run_sharded(out, exe, ["--prop", "C11", "--mode", "xbe"], "msan", n(out, 1200, 40000), label="msan-ctr")
+    exe = build_driver("drv_par", ["drv_par.c"] + HIST, "msan")
+    run_sharded(out, exe, ["--prop", "C11", "--mode", "xbe"], "msan", n(out, 1200, 40000), label="msan-par")
+    exe = build_driver("drv_keys_vg", ["drv_keys.c"] + HIST, "prod", extra=["-DVH_VALGRIND"])
+    run_sharded(out, exe, ["--prop", "C11", "--mode", "c11", "--case-timeout", "900"], "prod", n(out, 1600, 40000), label="memcheck-keys", wrapper=VG, timeout=3000)
+    if out.tier == "thorough":
+        exe = build_driver("drv_ctr_vg", ["drv_ctr.c"] + HIST, "prod", extra=["-DVH_VALGRIND"])
+        run_sharded(out, exe, ["--prop", "C11", "--mode", "xbe", "--case-timeout", "900"], "prod", 6000, label="memcheck-ctr", wrapper=VG, timeout=3000)
+        exe = build_driver("drv_keys", ["drv_keys.c"] + HIST, "msan+W32")
+        run_sharded(out, exe, ["--prop", "C11", "--mode", "c11"], "msan+W32", 40000, label="msan-keys")
+        exe = build_driver("drv_keys", ["drv_keys.c"] + HIST, "msan+NEUTRAL")
+        run_sharded(out, exe, ["--prop", "C11", "--mode", "c11"], "msan+NEUTRAL", 40000, label="msan-keys")
+    # (2) differential across processes
+    cases = n(out, 3000, 30000)
+    runs = [("prod", "base", [], {}), ("prod", "paint00", ["--paint", "0"], {}), ("prod", "paintFF", ["--paint", "255"], {}), ("prod", "paint-pattern", ["--paint", "-1"], {"MALLOC_PERTURB_": "165"}),
+            ("prod", "perturb", [], {"MALLOC_PERTURB_": "90"}), ("clang", "clang", ["--paint", "255"], {}), ("prod+O0", "gcc-O0", ["--paint", "0"], {}), ("prod+O1", "gcc-O1", ["--paint", "255"], {}), ("prod+O2", "gcc-O2", [], {"MALLOC_PERTURB_": "255"})]
+    if out.tier == "thorough":
+        runs += [("clang+O0", "clang-O0", ["--paint", "255"], {}), ("clang+O1", "clang-O1", [], {}), ("clang+O2", "clang-O2", ["--paint", "0"], {}), ("prod+Os", "gcc-Os", ["--paint", "255"], {})]
+    for vname, label, args, env in runs:
+        exe = build_driver("drv_xcfg", ["drv_xcfg.c"] + HIST, vname)
+        run_sharded(out, exe, ["--prop", "C11", "--mode", "digest"] + args, vname, cases, shards=8, label=label, extra_env=env)
+    _digest_compare(out, "C11", "base", "result-depends-on-stack-heap-or-optimisation")
+    out.assumptions += ["MSan/memcheck shadow state is trusted; padding bytes and schedule entries beyond 'rounds' are excluded (the library legitimately never writes them)"]
